@@ -340,3 +340,21 @@ Definition fn_decl (fuel : nat) (toks : list tk)
             end
       end
   end.
+
+(* the type-id of an alias-declaration (after `using NAME =`): base type,
+   abstract declarator, optional array suffix; the caller expects ';' next *)
+Definition alias_type (fuel : nat) (toks : list tk) : dres (ty * list tk) :=
+  match parse_base toks with
+  | DErr e => DErr e
+  | DOk (b, r) =>
+      match cvptr fuel b r with
+      | DErr e => DErr e
+      | DOk (d, r1) =>
+          if is_fn d then DErr 3            (* _parse_cv_ptr: unexpected function type *)
+          else
+            match r1 with
+            | a :: r2 => if is LB a then arrtype fuel d a r2 else DOk (d, r1)
+            | [] => DOk (d, r1)
+            end
+      end
+  end.
